@@ -1044,6 +1044,60 @@ def gen_package_case(r, i):
             "src": ["d", ents], "dst": None, "rig": "process" if i % 2 else "thread", "again": i % 3 == 0}
 
 
+def stalled_read_phase(ctx):
+    """oracle only: a source that stalls in the middle (a fifo whose writer pauses for longer than the connection's request timeout).
+    The copy may FAIL (the timeout error reaches the caller) - what it must not do is return normally with a file that differs from
+    what the source delivered: a request that timed out is not cancelled, the peer still performs the read and the file position
+    moves on, so anything that carries on after the timeout loses that chunk silently."""
+    import threading, time
+    root = tempfile.mkdtemp(prefix="c20-stall-")
+    conn = None
+    chunks = [bytes([65 + k]) * 16 for k in range(5)]
+    case = {"stalled_read": {"chunk": 16, "chunks": 5, "stall_after": 2, "stall_s": 1.6, "sync_request_timeout": 1}}
+    try:
+        fifo = os.path.join(root, "src.fifo")
+        os.mkfifo(fifo)
+        conn = rpyc.classic.connect_thread()
+        conn._config["sync_request_timeout"] = 1
+
+        def writer():
+            try:
+                with open(fifo, "wb", buffering=0) as w:
+                    w.write(b"".join(chunks[:2]))
+                    time.sleep(1.6)
+                    w.write(b"".join(chunks[2:]))
+            except OSError:
+                pass            # the reader gave up and closed its end
+        th = threading.Thread(target=writer, daemon=True)
+        th.start()
+        dst = os.path.join(root, "dst.bin")
+        try:
+            with C.time_limit(60):
+                rpyc.classic.download_file(conn, fifo, dst, chunk_size=16)
+            outcome = "returned"
+        except C.Hang:
+            raise
+        except BaseException as e:
+            outcome = "raised " + type(e).__name__
+        got = open(dst, "rb").read() if os.path.exists(dst) else None
+        ctx.case(("stalled-read", outcome), nontrivial=True, sample={"case": case, "outcome": outcome, "received_bytes": None if got is None else len(got)})
+        ctx.count("stalled-read:" + outcome.split()[0])
+        if outcome == "returned" and got != b"".join(chunks):
+            ctx.violation("download-returned-normally-with-different-content:stalled-source", case,
+                          observed={"bytes": None if got is None else len(got), "head": None if got is None else got[:48].decode("latin1")},
+                          expected="the 80 bytes the source delivered, or an exception",
+                          what="download_file returned normally although one of its reads had run into the request timeout: the local copy "
+                               "misses the chunk the abandoned request consumed")
+        th.join(5)
+    finally:
+        try:
+            if conn is not None:
+                conn.close()
+        except Exception:
+            pass
+        shutil.rmtree(root, ignore_errors=True)
+
+
 def run(ctx):
     r = ctx.rng
     model = C.Model("files")
@@ -1092,6 +1146,7 @@ def run(ctx):
             check_trees(ctx, model, rigs, [gen_case(r, done + j) for j in range(k)], table)
             done += k
         check_prune(ctx, model, r, n_prune)
+        stalled_read_phase(ctx)
     finally:
         for g in rigs.values():
             if g is not None:
